@@ -131,6 +131,8 @@ structure Model where
   layouts : List RecLayout
   /-- `rec.Validate()`: rejecting field (or none) and the possibly normalised record -/
   validator : String → Vals → Option String × Vals
+  /-- a validator predicate applied to a bare string (`isAlphanumericSpecial`, `isNumeric`, …) -/
+  accepts : String → Bytes → Bool := fun _ _ => true
   cm : Charmap
   b64 : Bytes → Option Bytes
   now : Date
